@@ -415,6 +415,268 @@ pub proof fn lemma_fold_append(c: u32, a: Seq<u8>, b: Seq<u8>)
     if b.len() == 0 { assert(a + b =~= a); }
     else { assert((a + b).drop_last() =~= a + b.drop_last()); assert((a + b).last() == b.last()); lemma_fold_append(c, a, b.drop_last()); }
 }
+// =====================================================================================
+// C03: burst-error detection of CRC-32/MPEG-2, proved on the bit-serial reading of the same register
+// (the register transition is linear over GF(2) and injective because the polynomial has a non-zero constant term)
+// =====================================================================================
+pub open spec fn bit31(bit: bool) -> u32 { if bit { 0x8000_0000u32 } else { 0u32 } }
+/// one input bit, MSB first: the bit is added to the top of the register, then the register is shifted through the polynomial
+pub open spec fn bstep(c: u32, bit: bool) -> u32 { crc_bit_step(c ^ bit31(bit)) }
+pub open spec fn bfold(c: u32, bits: Seq<bool>) -> u32 decreases bits.len() {
+    if bits.len() == 0 { c } else { bstep(bfold(c, bits.drop_last()), bits.last()) } }
+pub open spec fn byte_bits(b: u8) -> Seq<bool> {
+    seq![b & 0x80u8 != 0, b & 0x40u8 != 0, b & 0x20u8 != 0, b & 0x10u8 != 0, b & 0x08u8 != 0, b & 0x04u8 != 0, b & 0x02u8 != 0, b & 0x01u8 != 0] }
+pub open spec fn bits_of(s: Seq<u8>) -> Seq<bool> decreases s.len() {
+    if s.len() == 0 { Seq::empty() } else { bits_of(s.drop_last()) + byte_bits(s.last()) } }
+pub open spec fn zbits(n: nat) -> Seq<bool> { Seq::new(n, |i: int| false) }
+
+pub proof fn lemma_bfold_append(c: u32, x: Seq<bool>, y: Seq<bool>)
+    ensures bfold(c, x + y) == bfold(bfold(c, x), y)
+    decreases y.len()
+{
+    if y.len() == 0 { assert(x + y =~= x); }
+    else { assert((x + y).drop_last() =~= x + y.drop_last()); assert((x + y).last() == y.last()); lemma_bfold_append(c, x, y.drop_last()); }
+}
+pub open spec fn bitval(bit: bool) -> u32 { if bit { 1u32 } else { 0u32 } }
+/// the first (at most 32) bits, left-aligned in a 32-bit word
+pub open spec fn aval(bits: Seq<bool>) -> u32 decreases bits.len() {
+    if bits.len() == 0 || bits.len() > 32 { 0u32 } else { aval(bits.drop_last()) ^ (bitval(bits.last()) << ((32 - bits.len()) as u32)) } }
+pub proof fn lemma_bits_commute(x: u32, n: nat)
+    ensures crc_bits(x, n + 1) == crc_bit_step(crc_bits(x, n))
+    decreases n
+{
+    assert(crc_bits(x, n + 1) == crc_bits(crc_bit_step(x), n));
+    if n > 0 {
+        lemma_bits_commute(crc_bit_step(x), (n - 1) as nat);
+        assert(crc_bits(x, n) == crc_bits(crc_bit_step(x), (n - 1) as nat));
+        assert(((n - 1) as nat + 1) as nat == n);
+    }
+}
+/// a single bit below the top is shifted up unchanged
+pub proof fn lemma_pure_shift(v: u32, j: nat)
+    requires v == 0 || v == 1, j <= 31,
+    ensures crc_bits(v << ((31 - j) as u32), j) == v << 31u32
+    decreases j
+{
+    if j > 0 {
+        let sh = (31 - j) as u32;
+        let x = v << sh;
+        assert(x & 0x8000_0000u32 == 0 && x << 1u32 == v << ((sh + 1) as u32)) by (bit_vector) requires x == v << sh, v == 0 || v == 1, sh <= 30;
+        assert(crc_bit_step(x) == v << ((31 - (j - 1)) as u32));
+        lemma_pure_shift(v, (j - 1) as nat);
+    }
+}
+pub proof fn lemma_xor_assoc(a: u32, b: u32, c: u32) ensures (a ^ b) ^ c == a ^ (b ^ c), a ^ b == b ^ a, a ^ 0 == a, a ^ a == 0
+{ assert((a ^ b) ^ c == a ^ (b ^ c) && a ^ b == b ^ a && a ^ 0 == a && a ^ a == 0) by (bit_vector); }
+/// feeding n <= 32 bits into the register equals adding them, left-aligned, to the register and shifting n times
+pub proof fn lemma_bfold_short(c: u32, bits: Seq<bool>)
+    requires bits.len() <= 32,
+    ensures bfold(c, bits) == crc_bits(c ^ aval(bits), bits.len())
+    decreases bits.len()
+{
+    let n = bits.len();
+    if n == 0 { lemma_xor_assoc(c, 0, 0); }
+    else {
+        let pre = bits.drop_last();
+        let v = bitval(bits.last());
+        lemma_bfold_short(c, pre);
+        let m = (n - 1) as nat;
+        // bfold(c, bits) = step(crc_bits(c ^ aval(pre), m) ^ v<<31)
+        lemma_pure_shift(v, m);
+        let w = v << ((32 - n) as u32);
+        assert((31 - m) as u32 == (32 - n) as u32);
+        assert(bit31(bits.last()) == v << 31u32) by { assert(1u32 << 31u32 == 0x8000_0000u32 && 0u32 << 31u32 == 0u32) by (bit_vector); }
+        lemma_bits_linear(c ^ aval(pre), w, m);
+        lemma_xor_assoc(c, aval(pre), w);
+        assert(aval(bits) == aval(pre) ^ w);
+        lemma_bits_commute(c ^ aval(bits), m);
+    }
+}
+pub proof fn lemma_aval_byte(b: u8)
+    ensures aval(byte_bits(b)) == (b as u32) << 24, byte_bits(b).len() == 8
+{
+    let bits = byte_bits(b);
+    reveal_with_fuel(aval, 10);
+    let d1 = bits.drop_last(); let d2 = d1.drop_last(); let d3 = d2.drop_last(); let d4 = d3.drop_last(); let d5 = d4.drop_last(); let d6 = d5.drop_last(); let d7 = d6.drop_last(); let d8 = d7.drop_last();
+    assert(d8.len() == 0);
+    let bb = b as u32;
+    let v0 = bitval(bits[0]); let v1 = bitval(bits[1]); let v2 = bitval(bits[2]); let v3 = bitval(bits[3]); let v4 = bitval(bits[4]); let v5 = bitval(bits[5]); let v6 = bitval(bits[6]); let v7 = bitval(bits[7]);
+    assert(aval(d7) == 0u32 ^ (v0 << 31u32));
+    assert(aval(d6) == aval(d7) ^ (v1 << 30u32));
+    assert(aval(d5) == aval(d6) ^ (v2 << 29u32));
+    assert(aval(d4) == aval(d5) ^ (v3 << 28u32));
+    assert(aval(d3) == aval(d4) ^ (v4 << 27u32));
+    assert(aval(d2) == aval(d3) ^ (v5 << 26u32));
+    assert(aval(d1) == aval(d2) ^ (v6 << 25u32));
+    assert(aval(bits) == aval(d1) ^ (v7 << 24u32));
+    assert((b & 0x80u8 != 0) == (bb & 0x80 != 0) && (b & 0x40u8 != 0) == (bb & 0x40 != 0) && (b & 0x20u8 != 0) == (bb & 0x20 != 0) && (b & 0x10u8 != 0) == (bb & 0x10 != 0)
+        && (b & 0x08u8 != 0) == (bb & 0x08 != 0) && (b & 0x04u8 != 0) == (bb & 0x04 != 0) && (b & 0x02u8 != 0) == (bb & 0x02 != 0) && (b & 0x01u8 != 0) == (bb & 0x01 != 0)) by (bit_vector) requires bb == b as u32;
+    assert(((((((((0u32 ^ ((if bb & 0x80 != 0 { 1u32 } else { 0u32 }) << 31u32)) ^ ((if bb & 0x40 != 0 { 1u32 } else { 0u32 }) << 30u32)) ^ ((if bb & 0x20 != 0 { 1u32 } else { 0u32 }) << 29u32))
+        ^ ((if bb & 0x10 != 0 { 1u32 } else { 0u32 }) << 28u32)) ^ ((if bb & 0x08 != 0 { 1u32 } else { 0u32 }) << 27u32)) ^ ((if bb & 0x04 != 0 { 1u32 } else { 0u32 }) << 26u32))
+        ^ ((if bb & 0x02 != 0 { 1u32 } else { 0u32 }) << 25u32)) ^ ((if bb & 0x01 != 0 { 1u32 } else { 0u32 }) << 24u32)) == bb << 24u32) by (bit_vector) requires bb < 256;
+}
+/// a byte is eight bit steps
+pub proof fn lemma_byte_is_8_bits(c: u32, b: u8)
+    ensures crc_byte(c, b) == bfold(c, byte_bits(b))
+{
+    lemma_aval_byte(b);
+    lemma_bfold_short(c, byte_bits(b));
+}
+
+pub proof fn lemma_bits_of_append(a: Seq<u8>, b: Seq<u8>)
+    ensures bits_of(a + b) =~= bits_of(a) + bits_of(b), bits_of(a).len() == 8 * a.len()
+    decreases b.len()
+{
+    lemma_bits_of_len(a);
+    if b.len() == 0 { assert(a + b =~= a); }
+    else {
+        assert((a + b).drop_last() =~= a + b.drop_last()); assert((a + b).last() == b.last());
+        lemma_bits_of_append(a, b.drop_last());
+    }
+}
+pub proof fn lemma_bits_of_len(a: Seq<u8>) ensures bits_of(a).len() == 8 * a.len() decreases a.len()
+{ if a.len() > 0 { lemma_bits_of_len(a.drop_last()); } }
+/// the byte-wise CRC is the bit-serial one
+pub proof fn lemma_fold_is_bfold(c: u32, s: Seq<u8>)
+    ensures crc_fold(c, s) == bfold(c, bits_of(s))
+    decreases s.len()
+{
+    if s.len() > 0 {
+        lemma_fold_is_bfold(c, s.drop_last());
+        lemma_byte_is_8_bits(crc_fold(c, s.drop_last()), s.last());
+        lemma_bfold_append(c, bits_of(s.drop_last()), byte_bits(s.last()));
+    }
+}
+pub open spec fn xorb(x: Seq<bool>, y: Seq<bool>) -> Seq<bool> { Seq::new(x.len(), |i: int| x[i] != y[i]) }
+/// linearity over GF(2): registers and inputs add
+pub proof fn lemma_bfold_linear(c1: u32, c2: u32, x: Seq<bool>, y: Seq<bool>)
+    requires x.len() == y.len(),
+    ensures bfold(c1 ^ c2, xorb(x, y)) == bfold(c1, x) ^ bfold(c2, y)
+    decreases x.len()
+{
+    if x.len() > 0 {
+        let z = xorb(x, y);
+        assert(z.drop_last() =~= xorb(x.drop_last(), y.drop_last()));
+        lemma_bfold_linear(c1, c2, x.drop_last(), y.drop_last());
+        let a = bfold(c1, x.drop_last()); let b = bfold(c2, y.drop_last());
+        let p = bit31(x.last()); let q = bit31(y.last());
+        assert(bit31(z.last()) == p ^ q) by { assert(0x8000_0000u32 ^ 0x8000_0000u32 == 0u32 && 0x8000_0000u32 ^ 0u32 == 0x8000_0000u32 && 0u32 ^ 0x8000_0000u32 == 0x8000_0000u32 && 0u32 ^ 0u32 == 0u32) by (bit_vector); }
+        assert((a ^ b) ^ (p ^ q) == (a ^ p) ^ (b ^ q)) by (bit_vector);
+        lemma_step_linear(a ^ p, b ^ q);
+    }
+}
+pub proof fn lemma_step_zero(x: u32)
+    ensures crc_bit_step(x) == 0 ==> x == 0
+{ assert((if x & 0x8000_0000u32 != 0 { (x << 1) ^ 0x04C1_1DB7u32 } else { x << 1 }) == 0u32 ==> x == 0u32) by (bit_vector); }
+/// the register transition is injective: only the zero register shifts to zero
+pub proof fn lemma_bits_zero(x: u32, n: nat)
+    ensures crc_bits(x, n) == 0 ==> x == 0
+    decreases n
+{ if n > 0 { lemma_bits_zero(crc_bit_step(x), (n - 1) as nat); lemma_step_zero(x); } }
+pub proof fn lemma_bfold_zeros(c: u32, n: nat)
+    ensures bfold(c, zbits(n)) == crc_bits(c, n)
+    decreases n
+{
+    if n > 0 {
+        assert(zbits(n).drop_last() =~= zbits((n - 1) as nat));
+        lemma_bfold_zeros(c, (n - 1) as nat);
+        lemma_bits_commute(c, (n - 1) as nat);
+        lemma_xor_assoc(crc_bits(c, (n - 1) as nat), 0, 0);
+        assert(((n - 1) as nat + 1) as nat == n);
+    }
+}
+pub proof fn lemma_aval_top(bits: Seq<bool>)
+    requires 1 <= bits.len() <= 32, bits[0],
+    ensures aval(bits) & 0x8000_0000u32 != 0
+    decreases bits.len()
+{
+    if bits.len() == 1 {
+        assert(bits.drop_last().len() == 0);
+        assert(bits.last() == bits[0]);
+        assert(aval(bits.drop_last()) == 0u32);
+        assert(bitval(bits.last()) == 1u32);
+        assert(((32 - bits.len()) as u32) == 31u32);
+        assert(aval(bits) == aval(bits.drop_last()) ^ (bitval(bits.last()) << ((32 - bits.len()) as u32)));
+        assert(aval(bits) == 0u32 ^ (1u32 << 31u32));
+        assert((0u32 ^ (1u32 << 31u32)) & 0x8000_0000u32 != 0) by (bit_vector);
+    } else {
+        lemma_aval_top(bits.drop_last());
+        let a = aval(bits.drop_last()); let v = bitval(bits.last()); let sh = (32 - bits.len()) as u32;
+        assert(bits.drop_last()[0] == bits[0]);
+        assert(aval(bits) == a ^ (v << sh));
+        assert((a ^ (v << sh)) & 0x8000_0000u32 != 0) by (bit_vector) requires a & 0x8000_0000u32 != 0, v == 0 || v == 1, sh <= 30;
+    }
+}
+/// a CRC followed by itself leaves the register at zero
+pub proof fn lemma_trailer_zero(c: u32)
+    ensures crc_fold(c, be32(c)) == 0
+{
+    let t = be32(c);
+    let b0 = (c >> 24) as u8; let b1 = ((c >> 16) & 0xff) as u8; let b2 = ((c >> 8) & 0xff) as u8; let b3 = (c & 0xff) as u8;
+    reveal_with_fuel(crc_fold, 6);
+    let d1 = t.drop_last(); let d2 = d1.drop_last(); let d3 = d2.drop_last(); let d4 = d3.drop_last();
+    assert(d4.len() == 0);
+    let s1 = crc_byte(c, b0); let s2 = crc_byte(s1, b1); let s3 = crc_byte(s2, b2); let s4 = crc_byte(s3, b3);
+    assert(crc_fold(c, d4) == c); assert(crc_fold(c, d3) == s1); assert(crc_fold(c, d2) == s2); assert(crc_fold(c, d1) == s3); assert(crc_fold(c, t) == s4);
+    let x0 = c ^ ((b0 as u32) << 24);
+    assert(x0 & 0xFF00_0000u32 == 0 && x0 << 8u32 == c << 8u32) by (bit_vector) requires x0 == c ^ ((b0 as u32) << 24), b0 == (c >> 24) as u8;
+    lemma_bits_low(x0);
+    let x1 = s1 ^ ((b1 as u32) << 24);
+    assert(x1 & 0xFF00_0000u32 == 0 && x1 << 8u32 == c << 16u32) by (bit_vector) requires x1 == s1 ^ ((b1 as u32) << 24), s1 == c << 8u32, b1 == ((c >> 16) & 0xff) as u8;
+    lemma_bits_low(x1);
+    let x2 = s2 ^ ((b2 as u32) << 24);
+    assert(x2 & 0xFF00_0000u32 == 0 && x2 << 8u32 == c << 24u32) by (bit_vector) requires x2 == s2 ^ ((b2 as u32) << 24), s2 == c << 16u32, b2 == ((c >> 8) & 0xff) as u8;
+    lemma_bits_low(x2);
+    let x3 = s3 ^ ((b3 as u32) << 24);
+    assert(x3 == 0) by (bit_vector) requires x3 == s3 ^ ((b3 as u32) << 24), s3 == c << 24u32, b3 == (c & 0xff) as u8;
+    assert(0u32 & 0xFF00_0000u32 == 0 && 0u32 << 8u32 == 0u32) by (bit_vector);
+    lemma_bits_low(x3);
+}
+/// C03, error detection: a transmitted (protected bytes X, trailer crc(X)) hit by ANY error pattern whose non-zero bits lie within 32
+/// consecutive bit positions -- zbits(a) ++ burst ++ zbits(b) with 1 <= |burst| <= 32 and a leading one -- anywhere in X or in the
+/// trailer never satisfies the receiver's acceptance equation trailer' == crc(Y)
+pub proof fn lemma_crc_burst(x: Seq<u8>, y: Seq<u8>, t2: u32, a: nat, burst: Seq<bool>, b: nat)
+    requires
+        x.len() == y.len(), 1 <= burst.len() <= 32, burst[0],
+        a + burst.len() + b == 8 * (x.len() + 4),
+        bits_of(y + be32(t2)) =~= xorb(bits_of(x + be32(crc_mpeg2(x))), zbits(a) + burst + zbits(b)),
+    ensures t2 != crc_mpeg2(y)
+{
+    let init = 0xFFFF_FFFFu32;
+    let t = crc_mpeg2(x);
+    if t2 == crc_mpeg2(y) {
+        let sx = x + be32(t); let sy = y + be32(t2);
+        lemma_fold_append(init, x, be32(t)); lemma_trailer_zero(t);
+        lemma_fold_append(init, y, be32(t2)); lemma_trailer_zero(t2);
+        lemma_fold_is_bfold(init, sx); lemma_fold_is_bfold(init, sy);
+        let e = zbits(a) + burst + zbits(b);
+        lemma_bits_of_len(sx); lemma_bits_of_len(sy);
+        assert(bits_of(sx).len() == e.len());
+        // sy = sx xor e  ==>  e = sx xor sy
+        assert(xorb(bits_of(sx), bits_of(sy)) =~= e);
+        lemma_bfold_linear(init, init, bits_of(sx), bits_of(sy));
+        lemma_xor_assoc(init, 0, 0);
+        assert(bfold(0, e) == 0) by { assert(0u32 ^ 0u32 == 0u32) by (bit_vector); }
+        lemma_bfold_append(0, zbits(a) + burst, zbits(b));
+        lemma_bfold_append(0, zbits(a), burst);
+        lemma_bfold_zeros(0, a);
+        lemma_bits_zero(0, a);
+        assert(crc_bits(0, a) == 0) by { lemma_zero_stays(a); }
+        let h = bfold(0, burst);
+        lemma_bfold_short(0, burst);
+        lemma_aval_top(burst);
+        lemma_xor_assoc(aval(burst), 0, 0);
+        assert(0u32 ^ aval(burst) == aval(burst)) by { let v = aval(burst); assert(0u32 ^ v == v) by (bit_vector); }
+        lemma_bits_zero(aval(burst), burst.len());
+        assert(aval(burst) != 0) by { let v = aval(burst); assert(v & 0x8000_0000u32 != 0 ==> v != 0) by (bit_vector); }
+        assert(h != 0);
+        lemma_bfold_zeros(h, b);
+        lemma_bits_zero(h, b);
+    }
+}
+pub proof fn lemma_zero_stays(n: nat) ensures crc_bits(0, n) == 0 decreases n
+{ if n > 0 { assert(crc_bit_step(0) == 0) by { assert(0u32 & 0x8000_0000u32 == 0 && 0u32 << 1u32 == 0) by (bit_vector); } lemma_zero_stays((n - 1) as nat); } }
+
 /// catalogue check value of CRC-32/MPEG-2: crc("123456789") = 0x0376E6E7
 pub proof fn lemma_crc_check_value()
     ensures crc_mpeg2(seq![0x31u8, 0x32, 0x33, 0x34, 0x35, 0x36, 0x37, 0x38, 0x39]) == 0x0376_E6E7u32
